@@ -66,6 +66,20 @@ class ImplCheck:
         return g
 
 
+    def corpus_games(self):
+        """Regression games kept under corpus/<ID>/ (run first)."""
+        import glob
+        import json
+        out = []
+        for path in sorted(glob.glob(f'{core.VERIF}/corpus/{self.ID}/*.json')):
+            d = json.load(open(path))
+            g = gr1games.rebuild(d['game'])
+            ar = g['ar']
+            g.setdefault('EI', [True] * ar.ns)
+            g.setdefault('SI', [True] * ar.ns)
+            out.append(g)
+        return out
+
     def lifted(self, g, r, tab1=None, tab2=None):
         """lift a base table to the extended arena of build result r"""
         ar, ear = g['ar'], r['ear']
@@ -129,8 +143,13 @@ class ImplCheck:
         sample = None
         loops = 0
         skipped_large = 0
-        for i in range(n_games):
-            g = self.make_instance(ctx.rng, 'cudd' if i % 2 else 'autoref', max_states)
+        corpus = self.corpus_games()
+        for i in range(-len(corpus), n_games):
+            if i < 0:
+                g = corpus[i + len(corpus)]
+            else:
+                g = self.make_instance(ctx.rng, 'cudd' if i % 2 else 'autoref',
+                                       max_states)
             terms = []
             for (moore, plus_one) in MODES:
                 q = ctx.rng.choice(QINITS)
@@ -151,7 +170,7 @@ class ImplCheck:
                     # of iterates; larger instances are only analysed in
                     # closed loop below
                     act, init, ne = transducers.coq_model_terms(
-                        f'g{i}_', g, self.KIND, moore, plus_one, q)
+                        f'g{i + len(corpus)}_', g, self.KIND, moore, plus_one, q)
                     terms.append(f'eq2 (to_table2 {ne} ({act})) '
                                  f'{games.lit2(r["action"])}')
                     terms.append(f'opt_eq1 (opt_tbl {ne} ({init})) '
@@ -173,7 +192,7 @@ class ImplCheck:
                     mism.append(Mismatch(f.what, f.case, impl=f.got, key=f.key,
                                          property_fails=True))
             if terms:
-                groups.append((gr1games.coq_defs(f'g{i}_', g), terms))
+                groups.append((gr1games.coq_defs(f'g{i + len(corpus)}_', g), terms))
         res = ctx.eval_groups('corr', HEADER, groups, shard=2) if groups else []
         for (g, moore, plus_one, q, what), ok in zip(info, res):
             if not ok:
